@@ -247,7 +247,7 @@ impl CheckDef for Comp {
 }
 
 pub fn run(ctx: &mut Ctx) {
-    ctx.rule("COMP: event sequences over Cubic via the CongestionController trait (on_ack with dt 0..hours, RTO, recovery entry/exit, MSS growth, peer-window updates incl. 0/tiny/2^32-1, RTT states 0 ns..hours); oracle = stated inequalities after every step; non-trivial = >=1 loss event, >=1 MSS change, >=5 acks, final window > 2*mss; distinct by hash of (op kind, window in segments) sequence");
+    ctx.rule("COMP: event sequences over Cubic via the CongestionController trait (on_ack with dt 0..hours, RTO, recovery entry/exit, MSS growth, peer-window updates incl. 0/tiny/2^32-1, RTT states 0 ns..hours; incl. a dip op: window lowered, MSS raised, window re-opened); oracle = stated inequalities after every step + a metamorphic twin for the MSS clause (a copy taken before an MSS change that keeps the old MSS and sees the same peer-window updates holds the same window bytes once a peer window is re-applied); non-trivial = >=1 loss event, >=1 MSS change, >=5 acks, final window > 2*mss; distinct by hash of (op kind, window in segments) sequence");
     ctx.assume("MSS values are >= 1 and non-decreasing (SegmentSizes::mss() only grows)");
     ctx.assume("tolerance 2 B + 1e-9 relative for f64->usize conversions");
     ctx.replay_corpus::<Comp>();
